@@ -23,6 +23,7 @@ from .util import enclosing_withs, is_open_for_write, nested_defs, root_name
 
 # calls that can fail because of the *configuration* being saved
 FALLIBLE_LEAVES = {
+    "check_overwrite",  # refuses (raises) for an existing file: has to happen before ANY file was written
     "dump",
     "dump_using_format",
     "validate",
